@@ -1,0 +1,112 @@
+package tokenizer
+
+// ByteClass says which lexical region a byte of SQL text belongs to.
+type ByteClass uint8
+
+const (
+	// ByteCode is plain SQL: keywords, names, numbers, operators and the
+	// blanks and newlines between them.
+	ByteCode ByteClass = iota
+	// ByteLiteral is the inside of a string literal, a quoted or back-ticked
+	// identifier or a dollar-quoted string, delimiters included.
+	ByteLiteral
+	// ByteComment is the inside of a line or block comment, delimiters
+	// included; the newline that ends a line comment is code.
+	ByteComment
+)
+
+// ClassifyBytes returns the lexical region of every byte of text, using the
+// same rules as the tokenizer: single-quoted strings with doubled-quote and
+// backslash escapes, double-quoted and
+// back-ticked names with doubled delimiters, $tag$...$tag$, -- to the end of the line and
+// /* ... */ without nesting. An unterminated region extends to the end of the
+// text. Text rewriters (lint fixes, the language server's formatter) use it so
+// that they only ever touch ByteCode bytes.
+func ClassifyBytes(text string) []ByteClass {
+	out := make([]ByteClass, len(text))
+	mark := func(from, to int, c ByteClass) {
+		for k := from; k < to; k++ {
+			out[k] = c
+		}
+	}
+	n := len(text)
+	i := 0
+	for i < n {
+		c := text[i]
+		switch {
+		case c == '\'' || c == '"' || c == '`':
+			j := i + 1
+			for j < n {
+				if c == '\'' && text[j] == '\\' && j+1 < n {
+					j += 2
+					continue
+				}
+				if text[j] == c {
+					if j+1 < n && text[j+1] == c {
+						j += 2
+						continue
+					}
+					break
+				}
+				if c == '"' && text[j] == '\n' {
+					// a quoted identifier cannot span lines: treat the
+					// quote as unmatched and resume with the next line
+					j--
+					break
+				}
+				j++
+			}
+			end := j + 1
+			if end > n {
+				end = n
+			}
+			mark(i, end, ByteLiteral)
+			i = end
+		case c == '-' && i+1 < n && text[i+1] == '-':
+			j := i
+			for j < n && text[j] != '\n' {
+				j++
+			}
+			end := j
+			if end > i && text[end-1] == '\r' {
+				end-- // the CR of a CRLF terminator is not part of the comment
+			}
+			mark(i, end, ByteComment)
+			i = j
+		case c == '/' && i+1 < n && text[i+1] == '*':
+			j := i + 2
+			for j+1 < n && !(text[j] == '*' && text[j+1] == '/') {
+				j++
+			}
+			end := j + 2
+			if end > n {
+				end = n
+			}
+			mark(i, end, ByteComment)
+			i = end
+		case c == '$':
+			// $tag$ ... $tag$ (tag may be empty); $1 and a lone $ are code
+			j := i + 1
+			for j < n && (text[j] == '_' || text[j] >= 'a' && text[j] <= 'z' || text[j] >= 'A' && text[j] <= 'Z' || (j > i+1 && text[j] >= '0' && text[j] <= '9') || text[j] >= 0x80) {
+				j++
+			}
+			if j >= n || text[j] != '$' {
+				i++
+				continue
+			}
+			tag := text[i : j+1]
+			end := n
+			for k := j + 1; k+len(tag) <= n; k++ {
+				if text[k] == '$' && text[k:k+len(tag)] == tag {
+					end = k + len(tag)
+					break
+				}
+			}
+			mark(i, end, ByteLiteral)
+			i = end
+		default:
+			i++
+		}
+	}
+	return out
+}
